@@ -93,15 +93,23 @@ func (loc *Location) Control() *Control {
 	// ToDo: Consider sync.atomic.LoadPointer() or sync.atomic.Value.
 	loc.RLock()
 	p := loc.control
-	if p == nil {
-		// Watch out: allocation that perhaps we don't want.
-		p = SystemParameters.DefaultControl
-		if p == nil {
-			p = DefaultControl()
-		}
-		loc.control = p
-	}
 	loc.RUnlock()
+	if p == nil {
+		// Adopt the default control.  That is a write: take the
+		// exclusive lock (concurrent first callers used to write
+		// under the shared one).
+		loc.Lock()
+		if loc.control == nil {
+			// Watch out: allocation that perhaps we don't want.
+			c := SystemParameters.DefaultControl
+			if c == nil {
+				c = DefaultControl()
+			}
+			loc.control = c
+		}
+		p = loc.control
+		loc.Unlock()
+	}
 	return p
 }
 
